@@ -1,11 +1,38 @@
 """C15 — bounded stand-in on the real pattern engine (runtime/h_gsm.py)."""
 ID = "C15"
-LEVEL = "model_checking"
+LEVEL = "proof"
 FUNCTIONS = []
 TRUSTED = ["the derivative-based reference semantics in runtime/h_gsm.py"]
 ASSUMPTIONS = []
 BOUND = 'every shipped header and follow-up automaton (captured from the real extract_headers) x every configuration reachable with nesting depth <= 3 (thorough 5) x 171 token classes (9 token kinds x 19 distinguished values)'
 RULE = 'real Pattern.consume on every (configuration, token class); failure = ambiguity error; distinct = reachable configurations'
+
+
+def extra_obligations(eng, driver):
+    """Deductive part: symbolic execution of the real Pattern.consume on every shipped automaton (pyvc/c15.py)."""
+    from pyvc import c15
+    from pyvc.engine import Engine
+    import os
+    specs = open(os.path.join(driver.VERIF, "contracts", "specs.py")).read()
+    autos = c15.load_automata(driver)
+    obs, summaries = [], []
+    for A in autos:
+        e1 = Engine(eng.repo, eng.reg, specs)
+        e1._inline_seen = set()
+        o, s = c15.analyse_automaton(e1, A)
+        for x in o:
+            x.eng = e1
+        obs.extend(o)
+        summaries.append(s)
+        eng.used_assumptions |= e1.used_assumptions
+        eng.quick_calls += e1.quick_calls
+        eng.quick_time += e1.quick_time
+        eng.paths += e1.paths
+    if not obs or len(summaries) < 10:
+        raise RuntimeError("no automata / no obligations generated")
+    return obs, {"automata": summaries,
+                 "encoding": "predicate_map pre-populated with one copy per transition predicate (lazy deepcopy of a pristine predicate has depth 0); "
+                             "token type and value symbolic; invariant candidates per (state, Balanced copy): depth == 0, depth >= 0, depth >= 1 (Houdini)"}
 
 
 def bounded(tier, seed, fallback_for):
@@ -14,9 +41,9 @@ def bounded(tier, seed, fallback_for):
 
 
 MANIFEST = {
-    "category": "model_checking",
-    "technique": "bounded-exhaustive stand-in on the real engine against a derivative-based reference (contracts on the matcher functions where listed in evidence)",
-    "text": 'The finite space named by the statement (automaton state x nesting-depth class x token class) is explored completely with the real consume; depth classes beyond the bound behave like the deepest explored one (Balanced only tests depth > 0).',
+    "category": "proof",
+    "technique": "deductive: symbolic execution of the real Pattern.consume over each shipped DFA with a symbolic token, Houdini invariant on nesting depths, z3; plus exhaustive exploration of the finite abstraction with the real code",
+    "text": 'For each of the 17 shipped header/follow-up automata (built by the real extract_headers/nfa_to_dfa and dumped as data) the real consume and the real predicate accept methods are executed symbolically from every state with an arbitrary token (type constrained only by the disjointness of Pygments token subtrees, value an arbitrary string) and arbitrary nesting depths satisfying an inductive invariant found by Houdini; the obligation is that the ambiguity error is unreachable - for every depth, not a bounded one. In addition: the finite space named by the statement (automaton state x nesting-depth class x token class) is explored completely with the real consume; depth classes beyond the bound behave like the deepest explored one (Balanced only tests depth > 0).',
     "note": 'exhaustive over the stated finite abstraction up to the depth bound; token classes cover every predicate occurring in the shipped patterns',
     "design_ref": "DESIGN.md §6 C15",
 }
